@@ -57,11 +57,21 @@ class _CallerFile:
         return False
 
 
+class _Fmd:
+    def __init__(self, rows, rgs):
+        total = 0
+        for n in rows:
+            total = total + n
+        self.num_rows = total
+        self.row_groups = rgs
+
+
 class Handle:
     """what to_pandas/head/count read from `self`"""
 
     def __init__(self, rows, scheme="hive"):
         self.row_groups = [RG(n, i) for i, n in enumerate(rows)]
+        self.fmd = _Fmd(rows, self.row_groups)        # the footer of an unsliced handle: num_rows = sum of its groups
         self.columns = ["a"]
         self.cats = {}
         self.key_value_metadata = {}
@@ -613,6 +623,73 @@ def replay_h_iter_row_groups(n0, n1, n2, k):
         if got != list(df["a"]):
             return True, "iter_row_groups over %r yields rows %r..., full read %r..." % (
                 [rg.num_rows for rg in pf.row_groups], got[:6], list(df["a"])[:6])
+        return False, "agrees"
+    finally:
+        shutil.rmtree(d, ignore_errors=True)
+
+
+# ------------------------------------------------------------------ sliced handles ---
+SLICES = [0, 1, 2, slice(0, 2), slice(1, 3), slice(None, None, 2), slice(2, None), slice(0, 0), slice(None)]
+
+
+def _real_handle(rows):
+    """a real ParquetFile over real thrift metadata (row counts symbolic), built the way __getitem__ builds one"""
+    from fastparquet import parquet_thrift as pt
+    rgs = []
+    for i, n in enumerate(rows):
+        md = pt.ColumnMetaData(type=2, encodings=[0], path_in_schema=["a"], codec=0, num_values=n,
+                               total_uncompressed_size=8, total_compressed_size=8, data_page_offset=4,
+                               statistics=pt.Statistics(null_count=0))
+        rgs.append(pt.RowGroup(columns=[pt.ColumnChunk(file_offset=4, meta_data=md)], total_byte_size=8, num_rows=n))
+    total = 0
+    for n in rows:
+        total = total + n
+    fmd = pt.FileMetaData(version=1, schema=[pt.SchemaElement(name="schema", num_children=1),
+                                              pt.SchemaElement(name="a", type=2, repetition_type=0)],
+                          num_rows=total, row_groups=rgs, created_by=b"x")
+    pf = object.__new__(ParquetFile)
+    pf.__setstate__({"fn": "f.parq", "open": None, "fmd": fmd, "pandas_nulls": True, "_base_dtype": None,
+                     "tz": None, "_columns_dtype": None})
+    return pf
+
+
+def h_slice_count(n0: int, n1: int, n2: int, si: int) -> bool:
+    """
+    pre: 0 <= si < 9 and 0 <= n0 < 2147483648 and 0 <= n1 < 2147483648 and 0 <= n2 < 2147483648
+    post: __return__
+    """
+    # a handle obtained by picking / slicing row groups reports the rows of exactly those row groups
+    rows = [n0, n1, n2]
+    pf = _real_handle(rows)
+    item = SLICES[si]
+    sub = pf[item]
+    picked = rows[item] if isinstance(item, slice) else [rows[item]]
+    want = 0
+    for n in picked:
+        want = want + n
+    bad = 0
+    bad += (len(sub.row_groups) != len(picked))
+    bad += (sub.count() != want)
+    bad += (sub.info["rows"] != want)
+    bad += (pf.count() != n0 + n1 + n2)
+    return bad == 0
+
+
+def replay_h_slice_count(n0, n1, n2, si):
+    import shutil
+    import fastparquet
+    rows = [n0, n1, n2]
+    if min(rows) < 1 or sum(rows) > 5000:
+        rows = [max(1, min(n, 50)) + i for i, n in enumerate(rows)]      # same shape, sizes the driver can write
+    fn, df, d = _real_groups(rows)
+    try:
+        pf = fastparquet.ParquetFile(fn)
+        item = SLICES[si]
+        sub = pf[item]
+        read = len(sub.to_pandas()) if len(sub.row_groups) else 0
+        if sub.count() != read or sub.info["rows"] != read:
+            return True, "pf[%r].count() == %r, info['rows'] == %r, but %d rows are read" % (
+                item, sub.count(), sub.info["rows"], read)
         return False, "agrees"
     finally:
         shutil.rmtree(d, ignore_errors=True)
